@@ -2,6 +2,7 @@ package main
 
 func controlsC20() []Control {
 	return []Control{
+		{Name: "adapter keeps its private copy in a copy of itself (value receiver)", Expect: "R5", Mutate: replaceIn("(*tableEngineAdapter).UpdateTableState", "func (tea *tableEngineAdapter) UpdateTableState(", "func (tea tableEngineAdapter) UpdateTableState(", 0)},
 		{Name: "late-wired actor primed with the table the adapter was built with", Expect: "R2", Mutate: replaceIn("(*tableEngineAdapter).SetActor", "\ttea.actor = a\n", "\ttea.actor = a\n\tif tea.table != nil && a.GetRunner() != nil {\n\t\ta.UpdateTableState(tea.table)\n\t}\n", 0)},
 		{Name: "observer filter keyed on status again", Expect: "R1", Mutate: replaceIn("(*observerRunner).UpdateTableState", "if tableInfo.State.GameState != nil {", "if tableInfo.State.Status == pokertable.TableStateStatus_TableGamePlaying {", 0)},
 		{Name: "observer filter deleted", Expect: "R1", Mutate: replaceIn("(*observerRunner).UpdateTableState", "tableInfo.State.GameState.AsObserver()", "_ = tableInfo.State.GameState", 0)},
